@@ -40,6 +40,10 @@ def polarity(ctx, fx, b, operand, depth=0):
                     res.add("S" if c.endswith(("::is_some", "::is_ready")) else "R")
             elif c in QUERIES and depth < 2:
                 res.add(QUERIES[c] if all(x.kind == "arg" for x in roots(b, t["args"][0])) else "OTHER")
+            elif c in fx.fns and depth < 2 and fx.fns[c]["kind"] in ("fn", "assoc_fn") and t.get("destty") == "bool" and t["args"] and all(x.kind == "arg" for x in roots(b, t["args"][0])):
+                # a crate-local helper applied to (a field of) the handle: its own polarity decides
+                hb = ctx.body(fx, fx.fns[c])
+                res |= polarity(ctx, fx, hb, [0], depth + 1)
             else:
                 res.add("call:" + c)
         elif o.kind == "op":
@@ -68,39 +72,39 @@ def run(ctx):
 
 
 def run_cfg(ctx, fx):
+    check_queries(ctx, fx, "R14.1", "")
+    check_rest(ctx, fx)
+
+
+def check_queries(ctx, fx, RULE, suffix):
     for q, want in QUERIES.items():
         f = fx.fn(q)
-        if not ctx.require(f is not None, "R14.1", q, "liveness query %s not found" % q):
+        if not ctx.require(f is not None, RULE, q + suffix, "liveness query %s not found" % q):
             continue
         b = ctx.body(fx, f)
         pol = polarity(ctx, fx, b, [0])
-        ctx.require(pol == {want}, "R14.1", q, "the liveness query must poll its handle's termination future and report %s: derived %s%s" % ("stopped=ready" if want == "S" else "running=not ready", sorted(pol), " — Shared::peek only sees a result some clone has already polled out" if "PEEK" in pol or any("peek" in p for p in pol) else ""), fn=q, site=f["loc"], detail=sorted(pol))
+        ctx.require(pol == {want}, RULE, q + suffix, "the liveness query must poll its handle's termination future and report %s: derived %s%s" % ("stopped=ready" if want == "S" else "running=not ready", sorted(pol), " — Shared::peek only sees a result some clone has already polled out" if "PEEK" in pol or any("peek" in p for p in pol) else ""), fn=q, site=f["loc"], detail=sorted(pol))
+
+
+def check_rest(ctx, fx):
     peeks = [(f["def"], t["l"]) for f, bi, t in graph.all_calls(fx, lambda t: (t.get("callee") or "").endswith("::peek") and "shared" in (t.get("callee") or ""))]
     ctx.require(not peeks, "R14.2", "no-peek", "Shared::peek decides liveness somewhere: %s" % peeks, site=peeks[0][1] if peeks else "crate", detail={"positive_control": "callee suffix ::peek on futures_util::future::future::shared"})
-    # who reads a `running` field of a handle: the queries, clones/conversions (which pass it on) and Addr::poll
-    from tywalk import field_accesses
-    readers = {}
+    # who turns the termination future into a decision: the queries, the Future impl of Addr, and helpers only they call
+    pollers = set()
     for f in fx.d["fns"]:
-        b = ctx.body(fx, f)
-        for adt in ("addr::Addr", "addr::weak_addr::WeakAddr", "context::Context"):
-            for bi, where, name, place in field_accesses(fx, f, b, adt):
-                if name == "running":
-                    readers.setdefault(f.get("root", f["def"]), set()).add(adt)
-    deciders = []
-    for r in sorted(readers):
-        f = fx.fn(r)
-        fam = graph.family(fx, r)
-        # a decider turns the future into a bool
-        for g in fam:
-            gb = ctx.body(fx, g)
-            for _, t in gb.normal_calls():
-                c = t.get("callee") or ""
-                if c.endswith(ACTIVE + ("::peek",)) and SHARED in " ".join(t.get("argtys", [])):
-                    deciders.append(r)
-    pollers = sorted(set(deciders))
+        gb = ctx.body(fx, f)
+        for _, t in gb.normal_calls():
+            c = t.get("callee") or ""
+            if c.endswith(ACTIVE + ("::peek",)) and SHARED in " ".join(t.get("argtys", [])):
+                pollers.add(f.get("root", f["def"]))
     poll_impl = fx.impl_fn("core::future::future::Future", "addr::Addr<", "poll")
     allowed = set(QUERIES) | ({poll_impl["def"]} if poll_impl else set())
-    ctx.require(set(pollers) <= allowed and set(QUERIES) - {"addr::Addr::<A>::running"} <= set(pollers), "R14.2", "who-decides-liveness", "liveness is decided outside the three queries and the Future impl: %s" % sorted(set(pollers) - allowed), detail=pollers)
+    stray = []
+    for p_ in sorted(pollers - allowed):
+        who = graph.callers_of(fx, p_)
+        if not who or not all(w.split("::{")[0] in allowed or w in pollers for w in who):
+            stray.append(p_)
+    ctx.require(not stray and pollers, "R14.2", "who-decides-liveness", "liveness is decided outside the three queries and the Future impl: %s" % stray, detail=sorted(pollers))
     # the registry uses the queries
     uses = {}
     for f in fx.d["fns"]:
